@@ -224,6 +224,12 @@ func (s *stream) Open() {
 	s.streamFinishedWithCloseCh = false
 	s.streamFinishedWithEndEventCh = false
 
+	// Every session gets its own finish channels. A session can leave two signals behind (the stream end
+	// events and Close both signal when the waiter has not run in between); the leftover one must not be
+	// taken for the end of the next session.
+	s.finishStreamWithCloseCh = make(chan bool, 1)
+	s.finishStreamWithEndEventCh = make(chan bool, 1)
+
 	s.eventHandler.BeforeStreamStart()
 
 	vbIDs := s.vBucketDiscovery.Get()
@@ -268,7 +274,7 @@ func (s *stream) Open() {
 
 	s.checkpoint.StartSchedule()
 
-	go s.wait()
+	go s.wait(s.finishStreamWithCloseCh, s.finishStreamWithEndEventCh)
 	s.open = true
 }
 
@@ -402,14 +408,22 @@ func (s *stream) closeAllStreams() {
 // wait blocks until the stream session is finished. The token carries whether the stream was
 // finished as part of a rebalance when it was sent: s.balancing may already have been lowered by the
 // reopen when this goroutine gets to run, and a rebalance must not stop the client.
-func (s *stream) wait() {
-	var balancing bool
+func (s *stream) wait(closeCh chan bool, endEventCh chan bool) {
+	var balancing, withClose bool
 
 	select {
-	case balancing = <-s.finishStreamWithCloseCh:
-		s.streamFinishedWithCloseCh = true
-	case balancing = <-s.finishStreamWithEndEventCh:
-		s.streamFinishedWithEndEventCh = true
+	case balancing = <-closeCh:
+		withClose = true
+	case balancing = <-endEventCh:
+	}
+
+	// only the waiter of the session that is still current may record how it finished
+	if closeCh == s.finishStreamWithCloseCh {
+		if withClose {
+			s.streamFinishedWithCloseCh = true
+		} else {
+			s.streamFinishedWithEndEventCh = true
+		}
 	}
 
 	if !balancing {
